@@ -40,7 +40,7 @@ QueryRules(c) ==
          : i \in 1..Len(c.steps)}
 
 CaseVerdicts(c) == {[case |-> c.case, i |-> im.k, rule |-> r, status |-> "", op |-> "image"] : im \in {c.images[x] : x \in 1..Len(c.images)}, r \in {"C06.reopens","C06.listed","C06.prefix","C06.accessors","C06.cleanupResumes"}}
-Bad(c) == UNION {{[case |-> c.case, i |-> c.images[x].k, rule |-> r, status |-> "", op |-> "image"] : r \in ImageRules(c, c.images[x])} : x \in 1..Len(c.images)}
+Bad(c) == (IF c.createErr # "" THEN {[case |-> c.case, i |-> 0, rule |-> "C06.createdDurable", status |-> "", op |-> "create"]} ELSE {}) \cup UNION {{[case |-> c.case, i |-> c.images[x].k, rule |-> r, status |-> "", op |-> "image"] : r \in ImageRules(c, c.images[x])} : x \in 1..Len(c.images)}
           \cup {[case |-> c.case, i |-> 0, rule |-> r, status |-> "", op |-> "query"] : r \in QueryRules(c)}
 Verdicts == UNION {Bad(Cases[n]) : n \in 1..Len(Cases)}
 NImages == LET RECURSIVE Sum(_) Sum(n) == IF n = 0 THEN 0 ELSE Len(Cases[n].images) + Sum(n-1) IN Sum(Len(Cases))
